@@ -111,9 +111,6 @@ def run(tier):
                  assumptions=["std::map, std::vector, dynamic_cast and typeid behave as specified"])
     rep.rule("C17.err", "a missing handler is reported before anything is called: lookup result compared with end() before use, "
                         "check_size before each subscript, empty type lists call on_error, a failed visitor cast goes to the configured catch_all policy")
-    rep.rule("C17.rec", "each dispatch step casts to the HEAD of its type list and recurses on the TAIL; the lhs step continues with the full rhs list")
-    rep.rule("C17.sym", "the swapped call exec.run(rhs, lhs) is selected exactly by symmetric && rhs_index < lhs_index with both indices "
-                        "taken by index_of on the matching lists")
     rep.rule("C17.args", "registration replaces any previous handler for the same key, keys are built from the registered/dynamic types in "
                          "order, handlers receive the dispatched arguments cast position-wise followed by the undispatched ones")
     rep.rule("C17.fast", "fast dispatcher tables only grow (resize is guarded by size <= index or a fresh index), insertion/dispatch descend "
@@ -138,43 +135,9 @@ def run(tier):
         return c[0]
     ptypes = lambda f: [ir.wtype(p) for p in ir.params(f)]
     SD = "static_dispatcher"
-    # ---- static dispatcher ----
-    f = get(SD, "invoke_executor", lambda f: "false_type" in ptypes(f)[-1])
-    if f:
-        check(rep, "C17.sym", d, f, SD + "::invoke_executor(false_type)", "argument order", canon_fn(d, f), [["return p2.run(p0, p1)"]], "not swapped")
-    f = get(SD, "invoke_executor", lambda f: "true_type" in ptypes(f)[-1])
-    if f:
-        check(rep, "C17.sym", d, f, SD + "::invoke_executor(true_type)", "argument order", canon_fn(d, f), [["return p2.run(p1, p0)"]], "swapped")
-    for which in ("dispatch_rhs", "dispatch_lhs"):
-        f = get(SD, which, lambda f: ptypes(f)[-1].replace(" ", "") == "mpl::vector<>")
-        if f:
-            check(rep, "C17.err", d, f, "%s::%s(empty list)" % (SD, which), "no match -> on_error", canon_fn(d, f), [["return p2.on_error(p0, p1)"]],
-                  "an exhausted type list must report the error")
-    f = get(SD, "dispatch_rhs", lambda f: "T, U..." in ptypes(f)[-1])
-    if f:
-        got = canon_fn(d, f)
-        want = ["if (l0 := (T *)&p1)",
-                "  l1 := mpl::index_of<lhs_type_list,lhs_type>::value",
-                "  l2 := mpl::index_of<rhs_type_list,T>::value",
-                "  using invoke_flag = std::integral_constant<bool,std::is_same<symmetric,symmetric_dispatch>::value&&(rhs_index<lhs_index)>",
-                "  return invoke_executor(p0, *l0, p2, invoke_flag{})",
-                "return dispatch_rhs(p0, p1, p2, mpl::vector<U...>{})"]
-        g2 = [re.sub(r"\s+", "", x) if x.strip().startswith(("l1 :=", "l2 :=", "using")) else x for x in got]
-        w2 = [re.sub(r"\s+", "", x) if x.strip().startswith(("l1 :=", "l2 :=", "using")) else x for x in want]
-        # split into the three concerns
-        check(rep, "C17.rec", d, f, SD + "::dispatch_rhs(T, U...)", "head cast / tail recursion", [g2[0], g2[-1]], [[w2[0], w2[-1]]],
-              "must cast rhs to the head type T and recurse on the tail U...")
-        check(rep, "C17.sym", d, f, SD + "::dispatch_rhs(T, U...)", "swap condition", g2[1:4], [w2[1:4], [w2[2], w2[1], w2[3]]],
-              "swap only when symmetric and rhs_index < lhs_index, indices from index_of on the matching lists")
-        check(rep, "C17.args", d, f, SD + "::dispatch_rhs(T, U...)", "executor call", [g2[4]], [[w2[4]]], "must pass (lhs, *p, exec, invoke_flag())")
-    f = get(SD, "dispatch_lhs", lambda f: "T, U..." in ptypes(f)[-1])
-    if f:
-        check(rep, "C17.rec", d, f, SD + "::dispatch_lhs(T, U...)", "head cast / tail recursion", canon_fn(d, f),
-              [["if (l0 := (T *)&p0)", "  return dispatch_rhs(*l0, p1, p2, rhs_type_list{})", "return dispatch_lhs(p0, p1, p2, mpl::vector<U...>{})"]],
-              "must cast lhs to the head type, continue with the full rhs list, recurse on the tail")
-    f = get(SD, "dispatch")
-    if f:
-        check(rep, "C17.rec", d, f, SD + "::dispatch", "entry", canon_fn(d, f), [["return dispatch_lhs(p0, p1, p2, lhs_type_list{})"]], "must start with the full lhs list")
+    # ---- static dispatcher: decided on instantiations by abstract execution over the resolved calls (sa/rules/c17_static.py) ----
+    from . import c17_static
+    c17_static.rule_static(rep)
     # ---- basic dispatcher ----
     BD = "basic_dispatcher"
     f = get(BD, "make_key")
@@ -183,147 +146,235 @@ def run(tier):
               [["return void{void{pack((std::type_index)typeid(const std::type_info))}}"]], "key = type_index(typeid(U))...")
         if "typeid(U)" not in d.text(f):
             rep.violates("C17.args", BD + "::make_key", "key from the type pack", where=d.where(f), detail="the key is not built from typeid(U)...")
+    from .. import flow, norm
+    from .. import fstring as fs
     f = get(BD, "insert")
     if f:
-        got = strip_static_assert(canon_fn(d, f))
-        alts = [["(m_callback_map[make_key()] = move(p0))"], ["m_callback_map.insert_or_assign(make_key(), move(p0))"]]
-        if any(same(got, a) for a in alts) and "make_key<D...>" in d.text(f):
-            rep.holds("C17.args", BD + "::insert", "registration replaces", where=d.where(f), detail=got[0])
-        elif len(got) == 1 and re.search(r"\.(emplace|insert|try_emplace)\(", got[0]):
+        loc = fs.local_sx(f)
+        effects = [norm.deep_uncast(fs.subst_locals(ir.sx(s_), loc)) for s_ in ir.kids(ir.body(f)) if s_.get("kind") not in ("DeclStmt", "NullStmt", "StaticAssertDecl")]
+        txt = d.text(f).replace(" ", "")
+        ok = keeps = False
+        for e in effects:
+            if e[0] == "bin" and e[1] == "=" and e[2][0] == "index" and e[2][1] in (("mem", ("this",), "m_callback_map"), ("ref", "m_callback_map")) \
+                    and e[2][2][0] == "call" and ir.show(e[2][2][1]).endswith("make_key"):
+                ok = True
+            if e[0] == "call" and e[1][0] == "mem" and e[1][2] == "insert_or_assign" and len(e) >= 3 and e[2][0] == "call" and ir.show(e[2][1]).endswith("make_key"):
+                ok = True
+            if e[0] == "call" and e[1][0] == "mem" and e[1][2] in ("emplace", "insert", "try_emplace") and e[1][1] in (("mem", ("this",), "m_callback_map"), ("ref", "m_callback_map")):
+                keeps = True
+        if keeps:
             rep.violates("C17.args", BD + "::insert", "registration replaces", where=d.where(f),
-                         detail="`%s` keeps an already registered handler for the same type tuple: re-registration must replace it" % got[0])
+                         detail="emplace/insert keeps an already registered handler for the same type tuple: re-registration must replace it")
+        elif ok and "make_key<D...>" in txt:
+            rep.holds("C17.args", BD + "::insert", "registration replaces", where=d.where(f), detail="m_callback_map[make_key<D...>()] = cb")
         else:
-            check(rep, "C17.args", d, f, BD + "::insert", "registration replaces", got, alts, "registration must assign the handler under the key of D...")
+            rep.violates("C17.args", BD + "::insert", "registration replaces", where=d.where(f),
+                         detail="no assignment of the handler under the key of D...: found `%s`" % "; ".join(ir.show(e)[:70] for e in effects))
     f = get(BD, "erase")
     if f:
         body_txt = " ; ".join(canon_fn(d, f))
+        loc = fs.local_sx(f)
         if ("lower_bound" in body_txt or "upper_bound" in body_txt) and "erase(" in body_txt and not re.search(r"first\s*==|==\s*[^;]*first|key_comp|!\s*\(.*<.*first", body_txt):
             rep.violates("C17.args", BD + "::erase", "erases the key of D...", where=d.where(f),
                          detail="the entry found by lower_bound/upper_bound is erased without testing that its key equals the key of D...: erasing an unregistered tuple "
                                 "removes the NEXT registered handler (`%s`)" % body_txt[:160])
         else:
-            check(rep, "C17.args", d, f, BD + "::erase", "erases the key of D...", canon_fn(d, f), [["m_callback_map.erase(make_key())"]], "must erase exactly that key")
+            # erase(make_key<D...>()) directly, or erase(it) of an iterator obtained by find(make_key<D...>()) (its end() test is C17.err's business)
+            ok = False
+            for n_ in ir.walk_expr(ir.body(f)):
+                if n_.get("kind") in ("CallExpr", "CXXMemberCallExpr"):
+                    t = norm.deep_uncast(fs.subst_locals(ir.sx(n_), loc))
+                    if t[0] == "call" and t[1][0] == "mem" and t[1][2] == "erase" and len(t) == 3:
+                        a_ = t[2]
+                        if a_[0] == "call" and ir.show(a_[1]).endswith("make_key"):
+                            ok = True
+                        if a_[0] == "call" and a_[1][0] == "mem" and a_[1][2] == "find" and len(a_) == 3 and a_[2][0] == "call" and ir.show(a_[2][1]).endswith("make_key"):
+                            ok = True
+            ok = ok and "make_key<D...>" in d.text(f).replace(" ", "")
+            (rep.holds if ok else rep.violates)("C17.args", BD + "::erase", "erases the key of D...", where=d.where(f),
+                                                detail="erases make_key<D...>()" if ok else "must erase exactly the key of D...; found `%s`" % body_txt[:160])
+    # every iterator obtained from m_callback_map.find() is used only where it was compared with end() - in whichever member the lookup lives
+    n_find = 0
+    for (cn, fname), fl in sorted(fns.items()):
+        if cn != BD:
+            continue
+        for fn_ in fl:
+            its = {}
+            for v in ir.walk_expr(fn_):
+                if v.get("kind") == "VarDecl" and ir.ekids(v):
+                    t = norm.deep_uncast(ir.sx(ir.ekids(v)[-1]))
+                    if t[0] == "call" and t[1][0] == "mem" and t[1][2] == "find" and t[1][1] in (("mem", ("this",), "m_callback_map"), ("ref", "m_callback_map")):
+                        its[v.get("name")] = v
+            if not its:
+                continue
+            n_find += 1
+            bad = None
+            nuse = 0
+            for path in flow.function_paths(fn_, with_ctor_inits=False):
+                valid = {k_: None for k_ in its}
+                for st in path:
+                    if st[0] == "cond":
+                        c = norm.norm_cmp(ir.sx(st[1]), lambda x: x[0] == "ref" and x[1] in its)
+                        if c is not None and c[0] in ("==", "!=") and c[2][0] == "call" and c[2][1][0] == "mem" and c[2][1][2] in ("end", "cend"):
+                            valid[c[1][1]] = (c[0] == "!=") == st[2]
+                    node = st[1] if st[0] in ("ev", "return", "decl") and len(st) > 1 and isinstance(st[1], dict) else None
+                    if node is None:
+                        continue
+                    for x in [node] + list(ir.walk_expr(node)):
+                        if x.get("kind") in ("MemberExpr", "CXXDependentScopeMemberExpr") and (x.get("name") or x.get("member")) in ("second", "first") or \
+                                (x.get("kind") in ("UnaryOperator",) and x.get("opcode") == "*"):
+                            for y in ir.walk_expr(x):
+                                if y.get("kind") == "DeclRefExpr" and (y.get("referencedDecl") or {}).get("name") in its:
+                                    nuse += 1
+                                    if valid[(y.get("referencedDecl") or {}).get("name")] is not True and bad is None:
+                                        bad = (x, "the result of m_callback_map.find() is dereferenced on a path that did not compare it with end(): an unregistered type tuple dereferences end()")
+            label = BD + "::" + fname
+            if bad:
+                rep.violates("C17.err", label, "lookup, end() test, then use", where=d.where(bad[0]), detail=bad[1])
+            else:
+                rep.holds("C17.err", label, "lookup, end() test, then use", where=d.where(fn_), detail="%d use(s) of the iterator, all after the end() test" % nuse, nontrivial=nuse > 0)
+    if n_find == 0:
+        rep.broke("basic_dispatcher: no m_callback_map.find() lookup found")
+    # the lookup key is built from the dynamic types of the arguments, the handler gets (args..., udargs...)
     f = get(BD, "dispatch")
     if f:
-        got = canon_fn(d, f)
-        want = ["l0 := void{void{pack((std::type_index)typeid(const std::type_info))}}", "l1 := m_callback_map.find(l0)",
-                "if (l1 == m_callback_map.end())", "  throw((std::runtime_error)\"callback not found\")", "return l1.second(pack(p0), pack(p1))"]
-        check(rep, "C17.err", d, f, BD + "::dispatch", "lookup, end() test, then call", got, [want],
-              "the iterator must be compared with end() (and the error raised) before it is dereferenced; arguments in order")
-        if "typeid(args)" not in d.text(f):
-            rep.violates("C17.args", BD + "::dispatch", "key from the dynamic types", where=d.where(f), detail="the lookup key is not typeid(args)...")
+        cls_txt = " ".join(d.text(x).replace(" ", "") for (cn, _), fl in fns.items() if cn == BD for x in fl)
+        ok = "typeid(args)" in cls_txt
+        (rep.holds if ok else rep.violates)("C17.args", BD + "::dispatch", "key from the dynamic types", where=d.where(f), detail="typeid(args)..." if ok else "the lookup key is not typeid(args)...")
+        calls = [norm.deep_uncast(ir.sx(x)) for x in ir.walk_expr(ir.body(f)) if x.get("kind") in ("CallExpr", "CXXOperatorCallExpr", "CXXMemberCallExpr")]
+        pn = [p["name"] for p in ir.params(f)]
+        ok = any(t[0] == "call" and tuple(t[2:]) == tuple(("pack", ("ref", p_)) for p_ in pn) or (t[0] == "call" and [ir.show(x) for x in t[2:]] == ["pack(%s)" % p_ for p_ in pn]) for t in calls)
+        (rep.holds if ok else rep.violates)("C17.args", BD + "::dispatch", "handler receives (args..., udargs...)", where=d.where(f),
+                                            detail="(args..., udargs...)" if ok else "no call passes (args..., udargs...) in order: %s" % [ir.show(t)[:60] for t in calls][:4])
     # ---- fast dispatcher ----
     FD = "basic_fast_dispatcher"
     f = get(FD, "resize_container")
     if f:
-        # every resize must be dominated by a condition under which it cannot shrink the table:
-        # size() <= index (then the new size index+1 is larger) or the fresh-index branch (index == SIZE_MAX, new size ++m_next_index)
-        from ..linear import Lin, lin, nnf, dnf, atom_facts, entails
+        # path-wise, with the size of the level, the class index and m_next_index as linear forms over their values on entry:
+        # every resize must grow the level (or be the fresh-index case), and at every exit index[I] < c.size() must hold
+        from .. import flow, norm
+        from ..linear import Lin, atom_facts, entails
         cname = ir.params(f)[0]["name"]
-
-        def symmap(t):
-            if t[0] == "call" and len(t) == 2 and t[1][0] == "mem" and t[1][2] == "size" and t[1][1] == ("ref", cname):
-                return "size"
-            if t[0] == "ref":
-                return t[1]
-            if t[0] == "lit" and str(t[1]) == "18446744073709551615":
-                return "SIZE_MAX"
-            return None
-        resizes = []
-
-        def walk(s, conds):
-            k = s.get("kind")
-            if k == "IfStmt":
-                ks = ir.ekids(s)
-                c = ir.sx(ks[0])
-                walk(ks[1], conds + [c])
-                if len(ks) > 2:
-                    walk(ks[2], conds + [("un", "!", c)])
-                return
-            if k in ("CallExpr", "CXXMemberCallExpr"):
-                t = ir.sx(s)
-                if t[1][0] == "mem" and t[1][2] == "resize" and t[1][1] == ("ref", cname):
-                    resizes.append((s, t, list(conds)))
-            for c in ir.kids(s):
-                walk(c, conds)
-        walk(ir.body(f), [])
-        if not resizes:
-            rep.broke("no resize call found in resize_container")
-        for node, t, conds in resizes:
-            arg = t[2]
+        iname = ir.params(f)[1]["name"]
+        aliases = set()
+        for v in ir.walk_expr(f):
+            if v.get("kind") == "VarDecl" and ir.ekids(v):
+                t = norm.deep_uncast(ir.sx(ir.ekids(v)[-1]))
+                while t[0] == "call" and len(t) == 2 and t[1][0] == "mem" and t[1][2] == "get":
+                    t = t[1][1]
+                if t[0] == "index" and t[1] == ("ref", iname):
+                    aliases.add(v.get("name"))
+        nres = 0
+        bad = None
+        npaths = 0
+        for path in flow.function_paths(f, with_ctor_inits=False):
+            val = {"idx": Lin({"idx": 1}), "size": Lin({"size": 1}), "next": Lin({"next": 1})}
             facts = []
             fresh = False
-            for c in conds:
-                for conj in dnf(nnf(c))[:1]:
-                    for leaf in conj:
-                        if leaf[0] == "atom":
-                            l, r = lin(leaf[2], symmap), lin(leaf[3], symmap)
-                            if l is not None and r is not None:
-                                facts += atom_facts(leaf[1], l, r)
-                                if leaf[1] == "==" and {str(l), str(r)} == {str(Lin({"SIZE_MAX": 1})), str(lin(("ref", "idx"), symmap))}:
-                                    fresh = True
-            la = lin(arg, symmap)
-            grows = la is not None and entails(facts, la - Lin({"size": 1}) - Lin({"": 1}), ())
-            is_fresh = fresh and arg[0] == "un" and arg[1] == "++" and arg[2] in (("mem", ("this",), "m_next_index"), ("ref", "m_next_index"))
-            if grows or is_fresh:
-                rep.holds("C17.fast", FD + "::resize_container", "resize `%s`" % ir.show(t), where=d.where(node),
-                          detail="cannot shrink: %s" % ("fresh class index" if is_fresh else "guarded by size() <= index"))
-            else:
-                rep.violates("C17.fast", FD + "::resize_container", "resize `%s`" % ir.show(t), where=d.where(node),
-                             detail="this resize is not guarded by size() <= index (nor is it the fresh-index case): registering a class with a "
-                                    "smaller index shrinks the table and drops handlers registered earlier")
-    f = get(FD, "insert_impl", lambda f: "I + 1 == nb_args" in d.text(f).split("{")[0])
-    if f:
-        check(rep, "C17.fast", d, f, FD + "::insert_impl(last level)", "store at the last index", canon_fn(d, f),
-              [["resize_container(p1, p2)", "(p1[p2[I]] = move(p0))"]], "resize level I then store the handler at index[I]")
-    f = get(FD, "insert_impl", lambda f: "I + 1 != nb_args" in d.text(f).split("{")[0])
-    if f:
-        got = canon_fn(d, f)
-        check(rep, "C17.fast", d, f, FD + "::insert_impl(inner level)", "descend one level", got,
-              [["resize_container(p1, p2)", "insert_impl(move(p0), p1[p2[I]], p2)"]], "resize level I then recurse into c[index[I]]")
-        if "insert_impl<I+1>" not in d.text(f).replace(" ", ""):
-            rep.violates("C17.fast", FD + "::insert_impl(inner level)", "descend one level", where=d.where(f), detail="recursion is not on level I+1")
-    f = get(FD, "check_size")
-    if f:
-        check(rep, "C17.err", d, f, FD + "::check_size", "index >= size -> error", canon_fn(d, f),
-              [["if (p1[I] >= p0.size())", "  throw((std::runtime_error)\"callback not found\")"],
-               ["if (p0.size() <= p1[I])", "  throw((std::runtime_error)\"callback not found\")"],
-               ["if !(p1[I] < p0.size())", "  throw((std::runtime_error)\"callback not found\")"]],
-              "every index >= size() must raise the error")
-    f = get(FD, "dispatch_impl", lambda f: "I + 1 == nb_args" in d.text(f).split("{")[0])
-    if f:
-        check(rep, "C17.err", d, f, FD + "::dispatch_impl(last level)", "check_size before subscript", canon_fn(d, f),
-              [["check_size(p0, p1)", "return p0[p1[I]](pack(p2), pack(p3))"]], "check the index, then call the handler with (args..., udargs...)")
-    f = get(FD, "dispatch_impl", lambda f: "I + 1 != nb_args" in d.text(f).split("{")[0])
-    if f:
-        check(rep, "C17.err", d, f, FD + "::dispatch_impl(inner level)", "check_size before subscript", canon_fn(d, f),
-              [["check_size(p0, p1)", "return dispatch_impl(p0[p1[I]], p1, pack(p2), pack(p3))"]], "check the index, then descend")
-        txt = d.text(f).replace(" ", "")
-        if "check_size<I>" not in txt or "dispatch_impl<I+1>" not in txt:
-            rep.violates("C17.err", FD + "::dispatch_impl(inner level)", "level indices", where=d.where(f), detail="check_size<I> / dispatch_impl<I+1> expected")
-    f = get(FD, "insert")
-    if f:
-        check(rep, "C17.args", d, f, FD + "::insert", "indices of the registered types", canon_fn(d, f),
-              [["l0 := void{void{pack(ref(D::get_class_static_index()))}}", "insert_impl(move(p0), m_callbacks, l0)"],
-               ["l0 := void{void{pack(ref(get_class_static_index()))}}", "insert_impl(move(p0), m_callbacks, l0)"]],
-              "index = D::get_class_static_index()... in order")
-    f = get(FD, "dispatch")
-    if f:
-        check(rep, "C17.args", d, f, FD + "::dispatch", "indices of the dynamic types", canon_fn(d, f),
-              [["l0 := void{void{pack(p0.get_class_index())}}", "return dispatch_impl(m_callbacks, l0, pack(p0), pack(p1))"]],
-              "index = args.get_class_index()... in order")
+            done_inc = set()
+
+            def lv(t):
+                t = norm.uncast(t)
+                if t[0] == "lit":
+                    v_ = norm.int_of(t)
+                    if v_ is None:
+                        return None
+                    if v_ >= 2 ** 63:
+                        return Lin({"SIZE_MAX": 1})
+                    return Lin({"": v_}) if v_ else Lin()
+                if t[0] == "ref" and t[1] in aliases:
+                    return val["idx"]
+                if t[0] == "ref" and t[1] == "SIZE_MAX":
+                    return Lin({"SIZE_MAX": 1})
+                if t[0] == "index" and norm.uncast(t[1]) == ("ref", iname):
+                    return val["idx"]
+                if t[0] == "call" and len(t) == 2 and t[1][0] == "mem" and t[1][2] == "get":
+                    return lv(t[1][1])
+                if t[0] == "call" and len(t) == 2 and t[1][0] == "mem" and t[1][2] == "size" and norm.uncast(t[1][1]) == ("ref", cname):
+                    return val["size"]
+                if t in (("mem", ("this",), "m_next_index"), ("ref", "m_next_index")):
+                    return val["next"]
+                if t[0] == "un" and t[1] in ("++", "post++") and norm.uncast(t[2]) in (("mem", ("this",), "m_next_index"), ("ref", "m_next_index")):
+                    return val["next"] + Lin({"": 1})
+                if t[0] == "bin" and t[1] in ("+", "-"):
+                    a_, b_ = lv(t[2]), lv(t[3])
+                    if a_ is None or b_ is None:
+                        return None
+                    return a_ + b_ if t[1] == "+" else a_ - b_
+                return None
+            for st in path:
+                if st[0] == "cond":
+                    c = norm.norm_cmp(ir.sx(st[1]), lambda x: lv(x) is not None)
+                    if c is None:
+                        continue
+                    op, a_, b_ = c
+                    if not st[2]:
+                        op = norm.NEGOP[op]
+                    la, lb = lv(a_), lv(b_)
+                    if la is None or lb is None:
+                        continue
+                    if op == "==" and {str(la), str(lb)} == {str(val["idx"]), str(Lin({"SIZE_MAX": 1}))}:
+                        fresh = True
+                        continue
+                    if "SIZE_MAX" in la or "SIZE_MAX" in lb:
+                        continue
+                    facts += atom_facts(op, la, lb)
+                elif st[0] == "ev":
+                    n = st[1]
+                    t = ir.sx(n)
+                    if n.get("kind") in ("CallExpr", "CXXMemberCallExpr") and t[0] == "call" and t[1][0] == "mem" and t[1][2] == "resize" and norm.uncast(t[1][1]) == ("ref", cname):
+                        nres += 1
+                        arg = norm.uncast(t[2])
+                        if arg[0] == "un" and arg[1] in ("++", "post++") and any(id(x) in done_inc for x in ir.walk_expr(n)):
+                            new = val["next"]        # the increment inside the argument was already executed as its own event
+                        else:
+                            new = lv(arg)
+                            if arg[0] == "un" and arg[1] in ("++", "post++"):
+                                val["next"] = val["next"] + Lin({"": 1})
+                        grows = new is not None and entails(facts, new - val["size"] - Lin({"": 1}), ())
+                        is_fresh = fresh and new is not None and new == val["next"] and val["next"] == Lin({"next": 1, "": 1})
+                        if not (grows or is_fresh) and bad is None:
+                            bad = (n, "this resize is not guarded by size() <= index (nor is it the fresh-index case): registering a class with a "
+                                      "smaller index shrinks the table and drops handlers registered earlier")
+                        if new is not None:
+                            val["size"] = new
+                    elif n.get("kind") == "UnaryOperator" and n.get("opcode") == "++" and norm.uncast(t[2]) in (("mem", ("this",), "m_next_index"), ("ref", "m_next_index")):
+                        val["next"] = val["next"] + Lin({"": 1})
+                        done_inc.add(id(n))
+                    elif n.get("kind") == "BinaryOperator" and n.get("opcode") == "=":
+                        lhs = norm.uncast(t[2])
+                        if (lhs[0] == "ref" and lhs[1] in aliases) or (lhs[0] == "index" and norm.uncast(lhs[1]) == ("ref", iname)) or \
+                                (lhs[0] == "call" and len(lhs) == 2 and lhs[1][0] == "mem" and lhs[1][2] == "get"):
+                            nv = lv(t[3])
+                            if nv is not None:
+                                val["idx"] = nv
+                                fresh = False
+            npaths += 1
+            if path[-1][0] in ("return", "end") and bad is None:
+                if fresh or not entails(facts, val["size"] - val["idx"] - Lin({"": 1}), ()):
+                    bad = (f, "a path leaves resize_container without index[I] < c.size(): the subscript that follows reads/writes past the level")
+        if nres == 0:
+            rep.broke("no resize call found in resize_container")
+        elif bad:
+            rep.violates("C17.fast", FD + "::resize_container", "levels only grow; index[I] < size() at exit", where=d.where(bad[0]), detail=bad[1])
+        else:
+            rep.holds("C17.fast", FD + "::resize_container", "levels only grow; index[I] < size() at exit", where=d.where(f), detail="%d path(s), %d resize event(s)" % (npaths, nres))
+    from . import c17_fast
+    c17_fast.rule_fast_inst(rep)
     # ---- functor dispatcher ----
     FU = "functor_dispatcher"
     f = get(FU, "insert")
     if f:
         lam = [n for n in ir.walk_expr(ir.body(f)) if n.get("kind") == "LambdaExpr"]
         txt = re.sub(r"\s+", "", d.text(lam[0])) if lam else ""
-        ok = "returnfun(casting_policy<D&,B&>::cast(args)...,udargs...);" in txt
+        m_ = re.search(r"\]\(B&\.\.\.(\w+),T&\.\.\.(\w+)\)", txt)
+        a_, u_ = (m_.group(1), m_.group(2)) if m_ else ("args", "udargs")
+        ok = ("returnfun(casting_policy<D&,B&>::cast(%s)...,%s...);" % (a_, u_)) in txt
         (rep.holds if ok else rep.violates)("C17.args", FU + "::insert", "handler wrapper", where=d.where(f),
                                             detail="fun(casting_policy<D&, B&>::cast(args)..., udargs...)" if ok else
                                             "the wrapper must call fun(casting_policy<D&, B&>::cast(args)..., udargs...); found `%s`" % txt[:160])
         got = [l for l in canon_fn(d, f) if not l.startswith("l0 :=")]
-        check(rep, "C17.args", d, f, FU + "::insert", "registers under D...", got, [["m_backend.insert(move(l0))"]], "the wrapper must be registered in the backend")
+        check(rep, "C17.args", d, f, FU + "::insert", "registers under D...", got, [["m_backend.insert(move(l0))"], ["m_backend.insert(l0)"]], "the wrapper must be registered in the backend")
         if "insert<D...>" not in d.text(f).replace(" ", ""):
             rep.violates("C17.args", FU + "::insert", "registers under D...", where=d.where(f), detail="backend insert is not instantiated with D...")
     f = get(FU, "erase")
@@ -338,17 +389,96 @@ def run(tier):
     for const, label in ((False, "base_visitable<R,false>"), (True, "base_visitable<R,true>")):
         f = get("base_visitable", "accept_impl", lambda f, const=const: ptypes(f)[0].startswith("const ") == const)
         if f:
+            # path-wise: the visitor is cast to visitor<T, R, const>; where the cast succeeded the result is p->visit(visited), where it failed the
+            # configured policy catch_all<R, [const] T>::on_unknown_visitor(visited, vis) decides
             cv = "true" if const else "false"
-            T = "constT" if const else "T"
-            want = ["if (l0 := (visitor<T, R, %s> *)&p1)" % cv, "  return l0.visit(p0)", "return catch_all<R,%s>::on_unknown_visitor(p0, p1)" % T]
-            got = canon_fn(d, f)
-            check(rep, "C17.err", d, f, label + "::accept_impl", "visit on successful cast, else the configured catch_all", got, [want],
-                  "an unknown visitor must go to catch_all<R, %s>::on_unknown_visitor (the policy the class was configured with)" % ("const T" if const else "T"))
+            pv, pvis = [p["name"] for p in ir.params(f)]
+            casts = {}
+            aliases = {x.get("name"): re.sub(r"\s+", "", (x.get("type") or {}).get("qualType", "")) for x in ir.walk_expr(f) if x.get("kind") == "TypeAliasDecl"}
+            for v in ir.walk_expr(f):
+                if v.get("kind") == "VarDecl" and ir.ekids(v):
+                    dc = [x for x in [ir.strip(ir.ekids(v)[-1])] + list(ir.walk_expr(ir.ekids(v)[-1])) if x.get("kind") == "CXXDynamicCastExpr"]
+                    if dc:
+                        to = re.sub(r"\s+", "", ir.qtype(dc[0]))
+                        for k_, v_ in aliases.items():
+                            to = to.replace(k_, v_)
+                        casts[v.get("name")] = (to, ir.sx(ir.ekids(dc[0])[0]))
+            bad = None
+            n_ok = n_fail = 0
+            want_to = "visitor<T,R,%s>*" % cv
+            if len(casts) != 1:
+                bad = "expected one dynamic_cast of the visitor, found %d" % len(casts)
+            else:
+                pname, (to, src) = list(casts.items())[0]
+                if to != want_to or norm.uncast(src) != ("un", "&", ("ref", pvis)):
+                    bad = "the visitor is cast to `%s` from `%s`, expected dynamic_cast<%s>(&%s)" % (to, ir.show(src), want_to, pvis)
+                for path in ([] if bad else flow.function_paths(f, with_ctor_inits=False)):
+                    okp = None
+                    for st in path:
+                        if st[0] == "cond":
+                            t = norm.uncast(ir.sx(st[1]))
+                            if t == ("ref", pname):
+                                okp = st[2]
+                            else:
+                                c = norm.norm_cmp(t, lambda x: x == ("ref", pname))
+                                if c is not None and c[0] in ("==", "!=") and norm.uncast(c[2]) in (("lit", "nullptr"), ("lit", "0")):
+                                    okp = (c[0] == "!=") == st[2]
+                        if st[0] == "decl" and st[1].get("name") == pname and (d.parent_of(d.parent_of(st[1])) or {}).get("kind") == "IfStmt":
+                            pass
+                    end = path[-1]
+                    if end[0] != "return" or not ir.ekids(end[1]):
+                        bad = "a path does not return"
+                        break
+                    rn = ir.ekids(end[1])[0]
+                    # the arm of a ?: that this path evaluates
+                    def chosen(n_):
+                        n_ = ir.strip(n_)
+                        if n_.get("kind") == "ConditionalOperator" and okp is not None:
+                            kk = ir.ekids(n_)
+                            tc = norm.uncast(ir.sx(kk[0]))
+                            pos = None
+                            if tc == ("ref", pname):
+                                pos = True
+                            else:
+                                c2 = norm.norm_cmp(tc, lambda x: x == ("ref", pname))
+                                if c2 is not None and c2[0] in ("==", "!="):
+                                    pos = c2[0] == "!="
+                            if pos is not None:
+                                return chosen(kk[1] if pos == okp else kk[2])
+                        return n_
+                    rt = norm.deep_uncast(ir.sx(chosen(rn)))
+                    visit = rt[0] == "call" and rt[1] == ("mem", ("ref", pname), "visit") and tuple(rt[2:]) == (("ref", pv),)
+                    T_ = "constT" if const else "T"
+                    unknown = rt[0] == "call" and "on_unknown_visitor" in ir.show(rt[1]) and tuple(rt[2:]) == (("ref", pv), ("ref", pvis)) and \
+                        re.search(r"(?<![A-Za-z0-9_])catch_all<R,%s>::on_unknown_visitor" % T_, re.sub(r"\s+", "", d.text(chosen(rn)))) is not None
+                    if okp is True and visit:
+                        n_ok += 1
+                    elif okp is False and unknown:
+                        n_fail += 1
+                    elif okp is None:
+                        bad = "a path returns `%s` without having tested the result of the cast" % ir.show(rt)[:60]
+                    elif okp is True:
+                        bad = "after a successful cast the result is `%s`, expected %s->visit(%s)" % (ir.show(rt)[:60], pname, pv)
+                    else:
+                        bad = "an unknown visitor yields `%s`, expected catch_all<R, %s>::on_unknown_visitor(%s, %s) (the policy the class was configured with)" % (
+                            ir.show(rt)[:70], "const T" if const else "T", pv, pvis)
+                    if bad:
+                        break
+                if not bad and (n_ok == 0 or n_fail == 0):
+                    bad = "expected a visiting and a catch_all path (%d, %d)" % (n_ok, n_fail)
+            (rep.violates if bad else rep.holds)("C17.err", label + "::accept_impl", "visit on successful cast, else the configured catch_all", where=d.where(f),
+                                                detail=bad or "%d visiting, %d catch_all path(s)" % (n_ok, n_fail))
     f = get("cyclic_visitor", "generic_visit")
     if f:
-        got = canon_fn(d, f)
-        ok = same(got, ["l0 := *this", "return l0.visit(p0)"]) and "visitor<std::remove_const_t<V>,return_type,is_const>&" in d.text(f).replace(" ", "")
-        (rep.holds if ok else rep.violates)("C17.args", "cyclic_visitor::generic_visit", "selects the visitor base of the visited type", where=d.where(f), detail=" ; ".join(got))
+        txt = d.text(f).replace(" ", "").replace("\n", "")
+        loc = fs.local_sx(f)
+        rets = [x for x in ir.walk_expr(ir.body(f)) if x.get("kind") == "ReturnStmt" and ir.ekids(x)]
+        rt = norm.deep_uncast(fs.subst_locals(ir.sx(ir.ekids(rets[0])[0]), loc)) if len(rets) == 1 else None
+        pv = ir.params(f)[0]["name"]
+        ok = rt is not None and rt[0] == "call" and rt[1][0] == "mem" and rt[1][2] == "visit" and tuple(rt[2:]) == (("ref", pv),) and norm.deep_uncast(rt[1][1]) == ("un", "*", ("this",)) \
+            and "visitor<std::remove_const_t<V>,return_type,is_const>" in txt
+        (rep.holds if ok else rep.violates)("C17.args", "cyclic_visitor::generic_visit", "selects the visitor base of the visited type", where=d.where(f),
+                                            detail=ir.show(rt)[:100] if rt else "?")
     f = get("throwing_catch_all", "on_unknown_visitor")
     if f:
         ok = any(n.get("kind") == "CXXThrowExpr" for n in ir.walk_expr(ir.body(f)))
